@@ -84,6 +84,8 @@ class G(object):
                 d["y1"], d["y2"] = d["y2"], d["y1"]
         else:
             d = {"type": "CircularRegion", "id": rid, "cx": cx, "cy": cy, "r": r2(r.uniform(2, 25), 1)}
+            if r.random() < 0.03:
+                d["r"] = -d["r"]      # a client can send it; such a circle excludes nothing
         return d
 
     def norm(self, d):
@@ -496,9 +498,12 @@ class G(object):
         """The configured @-actions change mid-run (renamed / removed commands must stop working)."""
         r = self.r
         from .worlds.printworld import DEFAULT_AT_ACTIONS
-        which = r.choice([None, "only", "both", "none"])
+        which = r.choice([None, "only", "both", "none", "interleaved"])
         if which is None:
             acts = list(DEFAULT_AT_ACTIONS)
+        elif which == "interleaved":
+            acts = list(INTERLEAVED_AT)
+            which = None           # the default command texts stay the ones in effect
         elif which == "none":
             acts = []              # the user removed every action: no @-command may do anything
         elif which == "only":
@@ -741,6 +746,17 @@ CUSTOM_AT = [
     {"command": "RegionsOn", "parameterPattern": "", "action": "enable_exclusion", "description": "sim"},
     {"command": "Excl2", "parameterPattern": "off", "action": "disable_exclusion", "description": "sim"},
     {"command": "Excl2", "parameterPattern": "on", "action": "enable_exclusion", "description": "sim"},
+]
+# the same command configured in runs that are not adjacent (a lower-case alias sorts in between), and two
+# entries that both match one line
+INTERLEAVED_AT = [
+    {"command": "ExcludeRegion", "parameterPattern": "^\\s*(enable|on)(\\s|$)", "action": "enable_exclusion",
+     "description": "d"},
+    {"command": "ExcludeRegion", "parameterPattern": "^\\s*(disable|off)(\\s|$)", "action": "disable_exclusion",
+     "description": "d"},
+    {"command": "excluderegion", "parameterPattern": "^x", "action": "enable_exclusion", "description": "alias"},
+    {"command": "ExcludeRegion", "parameterPattern": "off", "action": "disable_exclusion", "description": "alias 2"},
+    {"command": "ExcludeRegion", "parameterPattern": "^\\s*resume", "action": "enable_exclusion", "description": "3"},
 ]
 
 
